@@ -131,3 +131,21 @@ fix_order_bad_switch (mpz_srcptr z)
       return 0;
     }
 }
+
+/* negative: the one-limb comparison moved into a helper of the unit */
+static int
+fix_order_cmp1 (mp_limb_t a, mp_limb_t b)
+{
+  return (a > b) - (a < b);
+}
+
+int
+fix_order_good_helper (mpz_srcptr u, mpir_ui v)
+{
+  mp_size_t un = SIZ (u);
+  if (un == 0)
+    return -(v != 0);
+  if (un == 1)
+    return fix_order_cmp1 (PTR (u)[0], v);
+  return un > 0 ? 1 : -1;
+}
